@@ -8,6 +8,7 @@ import MechVerif.Driver.C11
 import MechVerif.Driver.C12
 import MechVerif.Driver.C05
 import MechVerif.Driver.C19
+import MechVerif.Driver.C02
 open MechVerif.Driver
 
 def dispatch (line : String) : String :=
@@ -22,6 +23,7 @@ def dispatch (line : String) : String :=
     | some "concat" => runC11 fields obs
     | some "session" => runC05 fields obs
     | some "steps" => runC19 fields obs
+    | some "prec" => runC02 fields obs
     | some "conv" | some "reshape" | some "toset" => runC12 fields obs
     | some "crc" | some "dmg" | some "sweep" | some "rt" | some "instrs" => runC07 fields obs
     | _ => ("bad-proto", "bad-proto", "-")
